@@ -224,8 +224,9 @@ fn gen_records(w: &World, kind: Kind, scale: Scale, magic: Option<usize>, edge_d
         };
         let len = match (scale, magic) {
             (Scale::Large, _) if w.chance(1, 2) => w.range(1, 20_000) as usize,
-            // (1 huge run in 10: one sequence of 8 MiB and more)
-            (Scale::Huge, _) if v.is_empty() && w.chance(1, 10) && w.take_big(24 << 20) => {
+            // (1 huge run in 10 — thorough tier, where huge runs are six times as frequent: 1 in 30 —
+            // has one sequence of 8 MiB and more)
+            (Scale::Huge, _) if v.is_empty() && w.chance(1, if crate::world::thorough() { 30 } else { 10 }) && w.take_big(24 << 20) => {
                 w.probe("sequence_of_8_mib_or_more");
                 *w.pick(&[8usize << 20, (8 << 20) + 1, 10_000_000, (8 << 20) + 61])
             }
